@@ -20,6 +20,8 @@ package main
 
 import (
 	"context"
+	"crypto/sha1"
+	"encoding/hex"
 	"encoding/json"
 	"flag"
 	"fmt"
@@ -367,24 +369,33 @@ type c13Trace struct {
 }
 
 type c13Variant struct {
-	N     int      `json:"n"` // how many concurrent states produced exactly this trace
+	W     int      `json:"w"` // the value of the global c13_which these states were given
+	N     int      `json:"n"` // how many states produced exactly this trace
 	Trace c13Trace `json:"trace"`
 }
 
 type c13SharedOut struct {
 	ID        int          `json:"id"`
 	CompileEr string       `json:"compile_err,omitempty"`
-	Seq       c13Trace     `json:"seq"`
-	Conc      []c13Variant `json:"conc"`
+	Seqs      []c13Trace   `json:"seqs"` // reference: c13_which = w, run alone on a PRIVATE compilation
+	Conc      []c13Variant `json:"conc"` // states on the SHARED prototype (first alone, then all at once)
 	NStates   int          `json:"nstates"`
-	ProtoSame bool         `json:"proto_same"`
-	ProtoDiff string       `json:"proto_diff,omitempty"`
-	ProtoSize int          `json:"proto_size"` // prototypes in the snapshot
+	// observations of the shared prototype tree: per observation, per prototype (pre-order), one
+	// fingerprint per field; validated by SharedProtoTrace.tla
+	Obs       [][][]string `json:"obs"`
+	ObsNames  []string     `json:"obs_names"`
+	ProtoDiff string       `json:"proto_diff,omitempty"` // first difference in clear text (message only)
+	ProtoSize int          `json:"proto_size"`           // prototypes in the snapshot
 }
 
-// c13Snapshot is a deep, order-preserving description of a prototype tree:
-// every exported field and the unexported string-constant table (hook).
-func c13Snapshot(p *lua.FunctionProto, out *[]string, path string) {
+var c13ProtoFields = []string{"path", "SourceName", "LineDefined", "LastLineDefined", "NumUpvalues", "NumParameters",
+	"IsVarArg", "NumUsedRegisters", "Code", "Constants", "len(FunctionPrototypes)", "DbgSourcePositions", "DbgLocals",
+	"DbgCalls", "DbgUpvalues", "stringConstants", "cap(Code)", "cap(Constants)"}
+
+// c13Snapshot is a deep, order-preserving description of a prototype tree: for every
+// prototype reachable from the chunk (pre-order) the JSON text of every exported field
+// and of the unexported string-constant table (hook).
+func c13Snapshot(p *lua.FunctionProto, out *[][]string, path string) {
 	consts := make([]string, len(p.Constants))
 	for i, c := range p.Constants {
 		consts[i] = c.Type().String() + ":" + c.String()
@@ -397,19 +408,50 @@ func c13Snapshot(p *lua.FunctionProto, out *[]string, path string) {
 	for i, c := range p.DbgCalls {
 		calls[i] = fmt.Sprintf("%s/%d", c.Name, c.Pc)
 	}
-	b, _ := json.Marshal([]interface{}{path, p.SourceName, p.LineDefined, p.LastLineDefined, p.NumUpvalues,
+	fields := []interface{}{path, p.SourceName, p.LineDefined, p.LastLineDefined, p.NumUpvalues,
 		p.NumParameters, p.IsVarArg, p.NumUsedRegisters, p.Code, consts, len(p.FunctionPrototypes),
 		p.DbgSourcePositions, locals, calls, p.DbgUpvalues, p.VerifStringConstants(),
-		cap(p.Code), cap(p.Constants)})
-	*out = append(*out, string(b))
+		cap(p.Code), cap(p.Constants)}
+	row := make([]string, len(fields))
+	for i, f := range fields {
+		b, _ := json.Marshal(f)
+		row[i] = string(b)
+	}
+	*out = append(*out, row)
 	for i, c := range p.FunctionPrototypes {
 		c13Snapshot(c, out, fmt.Sprintf("%s.%d", path, i))
 	}
 }
 
+func c13Fingerprint(snap [][]string) [][]string {
+	out := make([][]string, len(snap))
+	for i, row := range snap {
+		out[i] = make([]string, len(row))
+		for j, f := range row {
+			h := sha1.Sum([]byte(f))
+			out[i][j] = hex.EncodeToString(h[:6])
+		}
+	}
+	return out
+}
+
+func c13SnapDiff(before, after [][]string) string {
+	if len(before) != len(after) {
+		return fmt.Sprintf("prototype count %d -> %d", len(before), len(after))
+	}
+	for i := range before {
+		for j := range before[i] {
+			if j >= len(after[i]) || before[i][j] != after[i][j] {
+				return fmt.Sprintf("prototype %s field %s: before %s after %s", before[i][0], c13ProtoFields[j], before[i][j], after[i][j])
+			}
+		}
+	}
+	return ""
+}
+
 // c13RunProto runs a fresh state on a function made from the shared prototype
 // and records the observable trace exactly as lua-run does for a source text.
-func c13RunProto(proto *lua.FunctionProto, budget int, minimize bool) (tr c13Trace) {
+func c13RunProto(proto *lua.FunctionProto, budget int, minimize bool, which int) (tr c13Trace) {
 	res := progOut{Emits: []interface{}{}}
 	// minimize: auto-growing call stack whose segments come from the package-level segmentPool
 	L := lua.NewState(lua.Options{MinimizeStackMemory: minimize})
@@ -417,6 +459,7 @@ func c13RunProto(proto *lua.FunctionProto, budget int, minimize bool) (tr c13Tra
 	tk := &tokenizer{ids: map[lua.LValue]int{}}
 	ctx := newDetCtx(budget, nil)
 	L.SetContext(ctx)
+	L.SetGlobal("c13_which", lua.LNumber(which))
 	L.SetGlobal("emit", L.NewFunction(func(L *lua.LState) int {
 		n := L.GetTop()
 		vs := make([]lua.LValue, n)
@@ -512,22 +555,40 @@ func c13Shared(args []string) int {
 		grp := progs[g:hi]
 		outs := make([]c13SharedOut, len(grp))
 		protos := make([]*lua.FunctionProto, len(grp))
-		before := make([][]string, len(grp))
-		// phase 1: compile once, snapshot, run alone (nothing else is running)
+		snaps := make([][][][]string, len(grp)) // per program: observations of the shared prototype tree
+		alone := make([]c13Trace, len(grp))
+		const nwhich = 2
+		// phase 1 (nothing else is running): the reference runs, each alone on a PRIVATE
+		// compilation; then compile the shared prototype once, observe it, run it alone, observe
 		for i, p := range grp {
 			outs[i].ID = p.ID
-			outs[i].NStates = *n
+			outs[i].NStates = *n + 1
+			outs[i].ObsNames = []string{"compiled", "after the run alone", "after the concurrent runs"}
+			for w := 0; w < nwhich; w++ {
+				priv, err := c13Compile(p.Src)
+				if err != nil {
+					outs[i].CompileEr = err.Error()
+					break
+				}
+				outs[i].Seqs = append(outs[i].Seqs, c13RunProto(priv, *budget, false, w))
+			}
+			if outs[i].CompileEr != "" {
+				continue
+			}
 			proto, err := c13Compile(p.Src)
 			if err != nil {
 				outs[i].CompileEr = err.Error()
 				continue
 			}
 			protos[i] = proto
-			c13Snapshot(proto, &before[i], "f")
-			outs[i].ProtoSize = len(before[i])
-			outs[i].Seq = c13RunProto(proto, *budget, false)
+			var s0, s1 [][]string
+			c13Snapshot(proto, &s0, "f")
+			alone[i] = c13RunProto(proto, *budget, false, 0)
+			c13Snapshot(proto, &s1, "f")
+			snaps[i] = [][][]string{s0, s1}
+			outs[i].ProtoSize = len(s0)
 		}
-		// phase 2: everything at once
+		// phase 2: everything at once; state k is given c13_which = k mod 2
 		start := make(chan struct{})
 		var wg sync.WaitGroup
 		traces := make([][]c13Trace, len(grp))
@@ -544,7 +605,7 @@ func c13Shared(args []string) int {
 					if k%2 == 1 {
 						runtime.Gosched()
 					}
-					traces[i][k] = c13RunProto(protos[i], *budget, k%2 == 1)
+					traces[i][k] = c13RunProto(protos[i], *budget, (k/2)%2 == 1, k%nwhich)
 				}(i, k)
 			}
 		}
@@ -565,7 +626,7 @@ func c13Shared(args []string) int {
 						c13Compile(src)
 					default: // load in a state of its own, run, close
 						if proto, err := c13Compile(src); err == nil {
-							c13RunProto(proto, *budget/10, j%2 == 0)
+							c13RunProto(proto, *budget/10, j%2 == 0, j%nwhich)
 						}
 					}
 				}
@@ -575,38 +636,50 @@ func c13Shared(args []string) int {
 		wg.Wait()
 		atomic.StoreInt32(&stop, 1)
 		cwg.Wait()
-		// phase 3: compare snapshots, fold identical traces
+		// phase 3: observe the shared prototypes again, fold identical traces
 		for i := range grp {
 			if protos[i] == nil {
 				w.write(outs[i])
 				continue
 			}
-			var after []string
-			c13Snapshot(protos[i], &after, "f")
-			outs[i].ProtoSame = len(after) == len(before[i])
-			for j := 0; outs[i].ProtoSame && j < len(after); j++ {
-				if after[j] != before[i][j] {
-					outs[i].ProtoSame = false
-					outs[i].ProtoDiff = "before " + before[i][j] + " after " + after[j]
+			var s2 [][]string
+			c13Snapshot(protos[i], &s2, "f")
+			snaps[i] = append(snaps[i], s2)
+			for _, sn := range snaps[i] {
+				outs[i].Obs = append(outs[i].Obs, c13Fingerprint(sn))
+			}
+			for k := 1; k < len(snaps[i]) && outs[i].ProtoDiff == ""; k++ {
+				if d := c13SnapDiff(snaps[i][0], snaps[i][k]); d != "" {
+					outs[i].ProtoDiff = outs[i].ObsNames[k] + ": " + d
 				}
 			}
-			if !outs[i].ProtoSame && outs[i].ProtoDiff == "" {
-				outs[i].ProtoDiff = fmt.Sprintf("prototype count %d -> %d", len(before[i]), len(after))
+			type wk struct {
+				w int
+				k string
 			}
-			count := map[string]int{}
-			first := map[string]c13Trace{}
-			for _, t := range traces[i] {
-				k := c13TraceKey(t)
+			count := map[wk]int{}
+			first := map[wk]c13Trace{}
+			note := func(w int, t c13Trace) {
+				k := wk{w, c13TraceKey(t)}
 				count[k]++
 				first[k] = t
 			}
-			keys := make([]string, 0, len(count))
+			note(0, alone[i])
+			for k, t := range traces[i] {
+				note(k%nwhich, t)
+			}
+			keys := make([]wk, 0, len(count))
 			for k := range count {
 				keys = append(keys, k)
 			}
-			sort.Strings(keys)
+			sort.Slice(keys, func(a, b int) bool {
+				if keys[a].w != keys[b].w {
+					return keys[a].w < keys[b].w
+				}
+				return keys[a].k < keys[b].k
+			})
 			for _, k := range keys {
-				outs[i].Conc = append(outs[i].Conc, c13Variant{count[k], first[k]})
+				outs[i].Conc = append(outs[i].Conc, c13Variant{k.w, count[k], first[k]})
 			}
 			w.write(outs[i])
 		}
